@@ -138,6 +138,8 @@ func (s *Sorter) scalarSort(t types.Type) string {
 			return SF32
 		case u.Info()&types.IsFloat != 0:
 			return SF64
+		case u.Info()&types.IsComplex != 0:
+			return "Cx" // complex numbers: an opaque sort (declared in the core prelude)
 		case u.Kind() == types.UnsafePointer, u.Kind() == types.UntypedNil:
 			return SInt
 		}
